@@ -683,3 +683,28 @@ package modeling
 //@     invariant list: fresh(attributes)
 //@     invariant only_keys: forall j int :: 0 <= j && j < len(attributes) ==> has(m.v4Data, attributes[j])
 //@     invariant all_seen: forall k string :: seen(k) ==> exists j int :: 0 <= j && j < len(attributes) && attributes[j] == k
+
+// ---- C01 breadth: frame-only contracts ("modifies nothing": every store / append / copy / map write
+// targets memory allocated by the call itself; no functional postcondition is claimed here) ----
+//@ func Mesh.WeldByFloat3Attribute frameonly
+//@   props C01
+//@ func Mesh.VertexNeighborTable frameonly
+//@   props C01
+//@ func Mesh.Transform frameonly
+//@   props C01
+//@ func Mesh.BoundingBox frameonly
+//@   props C01
+//@ func newImpliedIndicesMesh frameonly
+//@   props C01
+//@ func NewPointCloud frameonly
+//@   props C01
+//@ func NewLineStripMesh frameonly
+//@   props C01
+//@ func Mesh.ScanFloat4Attribute frameonly
+//@   props C01
+//@ func Mesh.OctTreeWithAttributeAndDepth frameonly
+//@   props C01
+//@ func EmptyPointcloud frameonly
+//@   props C01
+//@ func Mesh.LineStrip frameonly
+//@   props C01
